@@ -29,6 +29,8 @@ func init() {
 		"go.client.roundrobin": goClientRoundRobin,
 		"go.client.goroutines": goClientGoroutines,
 		"go.client.race":       goClientRace,
+		"go.client.deadlines":  goClientDeadlines,
+		"go.client.idle":       goClientIdle,
 	}})
 }
 
@@ -842,6 +844,141 @@ func clip12(s string) string {
 	return s
 }
 
+// goClientDeadlines: never-answered calls whose CALLER context has no deadline / a deadline shorter than, equal to,
+// longer than the client timeout / is cancelled in mid-flight. Each must return an error at the EARLIER of the two
+// deadlines (theorem timeout_is_min), within a tolerance judged against the scheduling canary.
+//
+//	args: seed nconn clientTimeoutMs
+func goClientDeadlines(a []string) string {
+	quiet12()
+	return retryStalled(150*time.Millisecond, func() string { return goClientDeadlines1(a) })
+}
+
+func goClientDeadlines1(a []string) string {
+	seed, nconn, tmo := int64(atoi12(a[0])), atoi12(a[1]), atoi12(a[2])
+	T := time.Duration(tmo) * time.Millisecond
+	type ctxCase struct {
+		name     string
+		deadline time.Duration // 0 = none
+		cancelAt time.Duration // 0 = never
+	}
+	cases := []ctxCase{
+		{"no-caller-deadline", 0, 0},
+		{"caller-shorter", T / 3, 0},
+		{"caller-equal", T, 0},
+		{"caller-longer", 3 * T, 0},
+		{"caller-much-longer", 10 * T, 0},
+		{"cancelled-midflight", 3 * T, T / 4},
+		{"cancelled-no-deadline", 0, T / 2},
+	}
+	acts := make([]act, len(cases))
+	for i := range acts {
+		acts[i] = act{kind: 'x'}
+	}
+	sc, conns, err := newScenario(seed, nconn, T, acts)
+	if err != nil {
+		return "FAIL setup " + err.Error()
+	}
+	defer sc.shutdown(conns)
+	type res struct {
+		el  time.Duration
+		err error
+	}
+	out := make([]res, len(cases))
+	var wg sync.WaitGroup
+	for i, c := range cases {
+		wg.Add(1)
+		go func(i int, c ctxCase) {
+			defer wg.Done()
+			ctx := context.Background()
+			var cancel context.CancelFunc = func() {}
+			if c.deadline > 0 {
+				ctx, cancel = context.WithTimeout(ctx, c.deadline)
+			} else if c.cancelAt > 0 {
+				ctx, cancel = context.WithCancel(ctx)
+			}
+			defer cancel()
+			if c.cancelAt > 0 {
+				stop := cancel
+				if c.deadline > 0 {
+					var inner context.CancelFunc
+					ctx, inner = context.WithCancel(ctx)
+					stop = inner
+					defer inner()
+				}
+				time.AfterFunc(c.cancelAt, stop)
+			}
+			q := make([]byte, 8)
+			binary.LittleEndian.PutUint32(q, uint32(i))
+			start := time.Now()
+			_, err := sc.client.Request(ctx, q)
+			out[i] = res{time.Since(start), err}
+		}(i, c)
+	}
+	wg.Wait()
+	tol := 100*time.Millisecond + 5*lagSeen()
+	for i, c := range cases {
+		want := T
+		if c.deadline > 0 && c.deadline < want {
+			want = c.deadline
+		}
+		if c.cancelAt > 0 && c.cancelAt < want {
+			want = c.cancelAt
+		}
+		if out[i].err == nil {
+			return fmt.Sprintf("FAIL unanswered-call-returned-ok case=%s", c.name)
+		}
+		if out[i].el > want+tol {
+			return fmt.Sprintf("FAIL returns-after-min-deadline case=%s min=%v returned-after=%v", c.name, want, out[i].el)
+		}
+		if out[i].el < want-5*time.Millisecond {
+			return fmt.Sprintf("FAIL returns-before-deadline case=%s min=%v returned-after=%v", c.name, want, out[i].el)
+		}
+	}
+	if n := sc.client.VerifQueriesLen(); n != 0 {
+		return fmt.Sprintf("FAIL registry-leak entries=%d", n)
+	}
+	return "ok"
+}
+
+// goClientIdle (THOROUGH tier, real time: the 10 s silence period and the 3 s ping period are constants of
+// liteclient/connection.go and cannot be shortened without editing existing lines): a connection on which only pings
+// and pongs flow for more than three silence periods. A call answered after 25 s must succeed (its connection may not
+// have been torn down meanwhile), a fresh call after the idle time must succeed, and the server must have seen exactly
+// ONE connection: pongs count as traffic.
+//
+//	args: seed idleSeconds
+func goClientIdle(a []string) string {
+	quiet12()
+	seed, idle := int64(atoi12(a[0])), atoi12(a[1])
+	slow := idle - 7
+	acts := []act{{kind: 'd', ms: slow * 1000}, {kind: 'n'}}
+	sc, conns, err := newScenario(seed, 1, time.Duration(idle+10)*time.Second, acts)
+	if err != nil {
+		return "FAIL setup " + err.Error()
+	}
+	defer sc.shutdown(conns)
+	first := make(chan callResult, 1)
+	go func() { first <- sc.doCall(0) }()
+	time.Sleep(time.Duration(idle) * time.Second)
+	r0 := <-first
+	r1 := sc.doCall(1)
+	ss := sc.servers[0]
+	ss.mu.Lock()
+	accepts := ss.accepts
+	ss.mu.Unlock()
+	if accepts != 1 {
+		return fmt.Sprintf("FAIL healthy-idle-connection-redialled connections-seen=%d (pongs did not count as traffic)", accepts)
+	}
+	if r0.class != fmt.Sprintf("m%d", tagOf(0)) {
+		return fmt.Sprintf("FAIL answer-after-%ds-lost result=%s", slow, r0.class)
+	}
+	if r1.class != fmt.Sprintf("m%d", tagOf(1)) {
+		return "FAIL call-after-idle-period-failed result=" + r1.class
+	}
+	return "ok"
+}
+
 // goClientRoundRobin: sequential calls over n connections reach the servers in the order 0,1,..,n-1,0,..
 func goClientRoundRobin(a []string) string {
 	quiet12()
@@ -1097,6 +1234,10 @@ func chaosArgs(g *h.G, slow bool) []string {
 }
 
 func genC12(g *h.G) {
+	if g.Thorough() {
+		// first, so that the failing-input search of a quick run (thorough generator, capped) reaches it
+		g.Emit("go.client.idle", "5", "32")
+	}
 	nRun := g.Scale(1000, 8000)
 	nChaos := g.Scale(400, 4000)
 	nSlow := g.Scale(6, 150)
@@ -1119,6 +1260,10 @@ func genC12(g *h.G) {
 		g.Emit("go.client.roundrobin", fmt.Sprint(n), fmt.Sprint(3*n+2))
 	}
 	g.Emit("go.client.goroutines", fmt.Sprint(g.Rng.Int31()), "300", fmt.Sprint(g.Scale(3000, 10000)))
+	for i := 0; i < g.Scale(24, 300); i++ {
+		g.Count("deadline_scenarios")
+		g.Emit("go.client.deadlines", fmt.Sprint(g.Rng.Int31()), fmt.Sprint(1+g.Rng.Intn(3)), fmt.Sprint(g.Pick(120, 150, 200, 300)))
+	}
 	if g.Thorough() {
 		g.Emit("go.client.race", fmt.Sprint(g.Rng.Int31()), "40")
 	}
